@@ -359,7 +359,7 @@ func vndIntrinsic(in *Interp, st *State, fn *ssa.Function, args []Value, retTo s
 	case "Assume":
 		in.assume(st, in.termOf(args[0], "assume"))
 		return nil, true
-	case "Assert", "AssertFinding":
+	case "Assert", "AssertFinding", "AssertEngine":
 		ci, li := 0, 1
 		finding := ""
 		if fn.Name() == "AssertFinding" {
@@ -368,6 +368,13 @@ func vndIntrinsic(in *Interp, st *State, fn *ssa.Function, args []Value, retTo s
 		}
 		c := in.termOf(args[ci], "assert")
 		l := in.strOf(st, args[li])
+		if in.labelPrefix != "" && !strings.HasPrefix(l, in.labelPrefix+" ") && !strings.HasPrefix(l, "SUMMARY ") {
+			// an assertion of another property that shares this harness: it is that
+			// property's check that discharges it; here it neither costs a query nor
+			// constrains the path
+			in.skippedAsserts++
+			return nil, true
+		}
 		st.asserts++
 		if c.IsTrue() {
 			return nil, true
@@ -404,6 +411,7 @@ func vndIntrinsic(in *Interp, st *State, fn *ssa.Function, args []Value, retTo s
 		if len(in.results) > before {
 			in.results[len(in.results)-1].Finding = finding
 			in.results[len(in.results)-1].Second = second
+			in.results[len(in.results)-1].EngineOnly = fn.Name() == "AssertEngine"
 		}
 		in.sol.Pop()
 		// continue on the side where the assertion holds, if any
@@ -530,6 +538,14 @@ func vndIntrinsic(in *Interp, st *State, fn *ssa.Function, args []Value, retTo s
 		return nil, true
 	case "RefTZ64":
 		return in.refTZ64(in.termOf(args[0], "RefTZ64")), true
+	case "Acquisitions":
+		// how often has the path locked (Lock or RLock) the given mutex so far?
+		if i, ok := args[0].(Iface); ok && i.T != nil {
+			if p, ok := i.V.(Ptr); ok && !p.IsNil() {
+				return tf.ConstI(64, int64(st.lockCounts[lockKey(p)])), true
+			}
+		}
+		return tf.ConstI(64, 0), true
 	case "Unshare":
 		st.shared = map[int]string{}
 		return nil, true
@@ -678,7 +694,17 @@ func mutexLock(in *Interp, st *State, fn *ssa.Function, args []Value, retTo ssa.
 	st.locks[key] = lockState{writer: true}
 	st.lockOrder = append(st.lockOrder, key)
 	st.csections++
+	st.lockCounts = bumpCount(st.lockCounts, key)
 	return nil, true
+}
+
+func bumpCount(m map[string]int, k string) map[string]int {
+	n := make(map[string]int, len(m)+1)
+	for a, b := range m {
+		n[a] = b
+	}
+	n[k]++
+	return n
 }
 
 func removeKey(l []string, k string) []string {
@@ -715,6 +741,7 @@ func mutexRLock(in *Interp, st *State, fn *ssa.Function, args []Value, retTo ssa
 	ls.readers++
 	st.locks[key] = ls
 	st.csections++
+	st.lockCounts = bumpCount(st.lockCounts, key)
 	return nil, true
 }
 
